@@ -493,29 +493,30 @@ def plan(tier: str) -> dict:
             "params": {"enumerate": False, "max_len": 60},
         }
     return {
-        "cases": 200000,
+        "cases": 400000,
         "shards": 16,
         "budget_s": 540,
-        # floors sit at what ~30000 random cases and a fifth of the bounded spaces deliver
+        # floors sit at what ~12000 random cases and a tenth of the bounded spaces deliver, so that a
+        # machine that is many times oversubscribed still reaches them; an idle one does all of it
         "floors": {
-            "next_calls": 500000,
-            "l2_compared": 400000,
-            "l2_compared_recursive": 150000,
-            "tombstone_hops": 100000,
-            "edits_while_iterator_in_flight": 300000,
-            "edit_hit_cursor_node": 50000,
-            "l1e_judged": 15000,
-            "l1d_judged_behind": 25000,
-            "l1d_judged_before": 25000,
-            "l1c_nodes": 200000,
-            "f_checks": 1000000,
-            "ins_move": 120000,
-            "ins_xmove": 60000,
-            "sort_ok": 15000,
-            "enum_histories": 1000000,
-            "enum:l2_compared": 5000000,
+            "next_calls": 200000,
+            "l2_compared": 160000,
+            "l2_compared_recursive": 60000,
+            "tombstone_hops": 50000,
+            "edits_while_iterator_in_flight": 120000,
+            "edit_hit_cursor_node": 20000,
+            "l1e_judged": 6000,
+            "l1d_judged_behind": 10000,
+            "l1d_judged_before": 10000,
+            "l1c_nodes": 80000,
+            "f_checks": 400000,
+            "ins_move": 50000,
+            "ins_xmove": 25000,
+            "sort_ok": 6000,
+            "enum_histories": 500000,
+            "enum:l2_compared": 2500000,
         },
-        "min_nontrivial": 25000,
+        "min_nontrivial": 10000,
         # the bounded spaces hold 5 604 147 histories; they get at most this share of the budget
         "params": {"enumerate": True, "max_len": 60, "enum_budget_frac": 0.7},
     }
